@@ -25,7 +25,9 @@ RULE = ("histories (Hypothesis RuleBasedStateMachine, <= 20 / 40 steps) over doc
         "/ style markup and varying definitions, DFXP whose region references (31 different "
         "ids) sit on body / div / p / span or on none of them (inheritance from ancestors or "
         "descendants), SAMI with varying P rules, WebVTT cues with starts from a small pool in "
-        "any order (strict readers reject part of them), corpus documents with one digit "
+        "any order (strict readers reject part of them), small SCC documents that are well-formed "
+        "or rejected part-way (bad time code on a later line, 40-character row, one-frame cue), "
+        "corpus documents with one digit "
         "changed. A second read rule picks a reader object that exists already and lets it read "
         "any document of its format. ")
 ASSUMPTIONS = [
@@ -128,6 +130,28 @@ def doc_strategy():
         return {"op": "add_doc", "fmt": "webvtt", "doc": "WEBVTT\n\n" + "\n".join(cues)}
 
     @st.composite
+    def scc_family(draw):
+        # small pop-on documents: well-formed, or rejected part-way (a time code that lost a
+        # digit on a later line, a row of 40 characters, a cue shown for one frame)
+        from ..ref import cea608 as R608
+        kind = draw(st.sampled_from(["ok", "ok", "badtime", "long", "flash"]))
+        word = draw(st.sampled_from(["Left over", "Good morning", "Second cue", "abc"]))
+        sec = draw(st.integers(1, 9))
+        row = draw(st.integers(1, 15))
+        text = word if kind != "long" else (word + " ") * 8
+        load = "9420 9420 " + R608.pac(row, 0) + " " + R608.pac(row, 0) + " " + " ".join(R608.char_words(text[:40]))
+        lines = ["Scenarist_SCC V1.0", "", f"00:00:{sec:02d}:00\t94ae 94ae {load} 942f 942f", ""]
+        if kind == "flash":
+            lines += [f"00:00:{sec + 1:02d}:00\t942c 942c", ""]
+            lines[2] = f"00:00:{sec + 1:02d}:00\t94ae 94ae {load} 942f 942c"
+            lines = lines[:4]
+        else:
+            lines += [f"00:00:{sec + 3:02d}:00\t942c 942c", ""]
+        if kind == "badtime":
+            lines += [f"00:00:{sec + 5:02d}\t94ae 94ae {load} 942f 942f", ""]
+        return {"op": "add_doc", "fmt": "scc", "doc": "\n".join(lines)}
+
+    @st.composite
     def sami_family(draw):
         margin = draw(st.sampled_from(["5%", "10%", "0%"]))
         al = draw(st.sampled_from(["left", "center", "right"]))
@@ -152,7 +176,7 @@ def doc_strategy():
     return st.one_of(st.integers(0, n - 1).map(lambda i: {"op": "add_doc", "corpus": i}),
                      st.integers(0, n - 1).map(lambda i: {"op": "add_doc", "corpus": i}),
                      gen_doc.map(build), dfxp_family(), dfxp_regions(), sami_family(), webvtt_family(),
-                     mutated_corpus())
+                     scc_family(), mutated_corpus())
 
 
 def call_strategy(fmt):
